@@ -2169,17 +2169,17 @@ Proof. exact class_file_rel2_nonvacuous. Qed.
 (* ====================================================================================== *)
 From RU Require Import Proofs.C01_EqFileCover2.
 
-(* Known_C01 (known_c01) against the former predicates: nothing that was outside is inside now, the classes 2-4 are the
+(* Known_C01 (known_c01_v3) against the former predicates: nothing that was outside is inside now, the classes 2-4 are the
    same, without a base nothing changed, and an input that left class 1 is in one of the three proved file classes:
    "file:" R in in_class_file with no file base or with two leading separators, or a scheme-less reference with two
    leading separators against a file base (in_class_file_rel2) *)
 Theorem C01_known_v2 : forall base input,
-  (known_c01_v2 base input = 0 -> known_c01 base input = 0)
-  /\ (known_c01_v1 base input = 0 -> known_c01 base input = 0)
-  /\ (known_c01 base input <> 0 -> known_c01 base input = known_c01_v1 base input)
-  /\ known_c01 None input = known_c01_v2 None input
-  /\ (known_c01 base input = 0 -> known_c01_v1 base input = 0 \/ k_file_narrow base input = true)
-  /\ (forall dbg shs sbase, full_rel dbg shs base sbase -> k_file_narrow base input = true ->
+  (known_c01_v2 base input = 0 -> known_c01_v3 base input = 0)
+  /\ (known_c01_v1 base input = 0 -> known_c01_v3 base input = 0)
+  /\ (known_c01_v3 base input <> 0 -> known_c01_v3 base input = known_c01_v1 base input)
+  /\ known_c01_v3 None input = known_c01_v2 None input
+  /\ (known_c01_v3 base input = 0 -> known_c01_v1 base input = 0 \/ k_file_narrow_v3 base input = true)
+  /\ (forall dbg shs sbase, full_rel dbg shs base sbase -> k_file_narrow_v3 base input = true ->
         (no_file_base sbase || two_sl_file input) && in_class_file input
         || match sbase with Some sb => in_class_file_rel2 sb input | None => false end = true).
 Proof.
@@ -2193,30 +2193,30 @@ Print Assumptions C01_known_v2.
 (* coverage: for base = None or a full_base pair (FILE bases included), EVERY input outside Known_C01 is in
    in_proved_class5 = in_proved_class4 or ("file:" + two separators in in_class_file) or in_class_file_rel2 *)
 Theorem C01_class5_complete : forall dbg shs input base sbase,
-  full_rel dbg shs base sbase -> known_c01 base input = 0 -> in_proved_class5 sbase input = true.
+  full_rel dbg shs base sbase -> known_c01_v3 base input = 0 -> in_proved_class5 sbase input = true.
 Proof. exact all_covers5. Qed.
 Check C01_class5_complete : forall dbg shs input base sbase,
-  full_rel dbg shs base sbase -> known_c01 base input = 0 ->
+  full_rel dbg shs base sbase -> known_c01_v3 base input = 0 ->
   in_proved_class3 sbase input || (no_file_base sbase && in_class_file input)
   || (in_class_file input && two_sl_file input)
   || match sbase with Some sb => in_class_file_rel2 sb input | None => false end = true.
 Print Assumptions C01_class5_complete.
 
 (* C01_statement for Known_C01, one theorem (supersedes C01_statement_all2, which is the same statement for
-   known_c01_v2): base = None or a full_base pair, EVERY scalar-value input with known_c01 base input = 0 - now
+   known_c01_v2): base = None or a full_base pair, EVERY scalar-value input with known_c01_v3 base input = 0 - now
    including, against a FILE base, "file:" + two separators and scheme-less references with two leading separators -
    agree_good, and a successful pair of results is a full_base pair again.  Host functions abstract: host_hyp5 =
    host_hyp3, host_agree_file on the text between "//" and the path of a "file:" input of the file class, the same
    for a scheme-less "//T" against a file base. *)
 Theorem C01_statement_all3 : forall dbg hp hpo hd shp shs input base sbase,
-  usv_list input -> full_rel dbg shs base sbase -> known_c01 base input = 0 ->
+  usv_list input -> full_rel dbg shs base sbase -> known_c01_v3 base input = 0 ->
   host_hyp5 hp hpo hd shp shs sbase input ->
   agree_good dbg shs (parse_url dbg hp hpo hd None base input) (spec_basic_url_parse shp input sbase)
   /\ (forall su u, spec_basic_url_parse shp input sbase = BDone su -> parse_url dbg hp hpo hd None base input = POk u ->
         full_base dbg shs u su).
 Proof. exact statement_all5. Qed.
 Check C01_statement_all3 : forall dbg hp hpo hd shp shs input base sbase,
-  usv_list input -> full_rel dbg shs base sbase -> known_c01 base input = 0 ->
+  usv_list input -> full_rel dbg shs base sbase -> known_c01_v3 base input = 0 ->
   (host_hyp3 hp hpo hd shp shs sbase input
    /\ ((no_file_base sbase || two_sl_file input) && in_class_file input = true ->
        host_agree_file hp hd shp shs (class_host_text_f input))
@@ -2230,7 +2230,7 @@ Print Assumptions C01_statement_all3.
 (* the same for the parser model with the host model plugged in against the Standard's parser with the
    Standard's host parser: relative to IdnaOK idna ONLY *)
 Theorem C01_statement_all3_model : forall dbg idna, IdnaOK idna -> forall input base sbase,
-  usv_list input -> full_rel dbg spec_host_serializer base sbase -> known_c01 base input = 0 ->
+  usv_list input -> full_rel dbg spec_host_serializer base sbase -> known_c01_v3 base input = 0 ->
   agree_good dbg spec_host_serializer
     (parse_url dbg (host_parse idna) host_parse_opaque host_display None base input)
     (spec_basic_url_parse (spec_host_parser idna) input sbase)
@@ -2245,7 +2245,7 @@ Check C01_statement_all3_model : forall dbg idna, IdnaOK idna -> forall input ba
   | Some b, Some sb => (related dbg spec_host_serializer b sb /\ spec_base_ok sb = true) /\ base_shape_ok sb = true
   | _, _ => False
   end ->
-  known_c01 base input = 0 ->
+  known_c01_v3 base input = 0 ->
   let m := parse_url dbg (host_parse idna) host_parse_opaque host_display None base input in
   match spec_basic_url_parse (spec_host_parser idna) input sbase with
   | BDone su => spec_base_ok su = true
@@ -2260,7 +2260,7 @@ Print Assumptions C01_statement_all3_model.
 
 (* with a UTF-8 encoding override *)
 Theorem C01_statement_all3_model_utf8 : forall dbg idna, IdnaOK idna -> forall input base sbase,
-  usv_list input -> full_rel dbg spec_host_serializer base sbase -> known_c01 base input = 0 ->
+  usv_list input -> full_rel dbg spec_host_serializer base sbase -> known_c01_v3 base input = 0 ->
   agree_good dbg spec_host_serializer
     (parse_url dbg (host_parse idna) host_parse_opaque host_display (Some utf8_encode) base input)
     (spec_basic_url_parse (spec_host_parser idna) input sbase).
@@ -2269,13 +2269,13 @@ Print Assumptions C01_statement_all3_model_utf8.
 
 (* in the shape of C01_statement (see C01_statement_instance) *)
 Theorem C01_statement_instance3 : forall dbg idna, IdnaOK idna -> forall input base sbase,
-  usv_list input -> full_rel dbg spec_host_serializer base sbase -> known_c01 base input = 0 ->
+  usv_list input -> full_rel dbg spec_host_serializer base sbase -> known_c01_v3 base input = 0 ->
   statement_shape dbg spec_host_serializer
     (parse_url dbg (host_parse idna) host_parse_opaque host_display None base input)
     (spec_basic_url_parse (spec_host_parser idna) input sbase).
 Proof. exact statement_instance5. Qed.
 Check C01_statement_instance3 : forall dbg idna, IdnaOK idna -> forall input base sbase,
-  usv_list input -> full_rel dbg spec_host_serializer base sbase -> known_c01 base input = 0 ->
+  usv_list input -> full_rel dbg spec_host_serializer base sbase -> known_c01_v3 base input = 0 ->
   match parse_url dbg (host_parse idna) host_parse_opaque host_display None base input,
         spec_basic_url_parse (spec_host_parser idna) input sbase with
   | POk u, BDone su => api_total dbg u = spec_api_list spec_host_serializer su
@@ -2286,27 +2286,27 @@ Check C01_statement_instance3 : forall dbg idna, IdnaOK idna -> forall input bas
 Print Assumptions C01_statement_instance3.
 
 (* what left class 1 and what stays, against the parse result of file://h/tmp/x (vm_compute).  Left (known_c01_v2 = 1,
-   known_c01 = 0): file:///C:/a/../b, file://h2.x/a/../b?q, fIle:\\/y, //h2.x/a/../b?q, \\/y.  Stay in class 1: x, /x,
+   known_c01_v3 = 0): file:///C:/a/../b, file://h2.x/a/../b?q, fIle:\\/y, //h2.x/a/../b?q, \\/y.  Stay in class 1: x, /x,
    file:/x, file:x (the base is read), //h.x/C:/ (F-C01-1), file:////foo (F-C01-3).  Outside as before: #f, the empty
    reference.  Against the parse result of http://u:@h/ nothing changed. *)
 Theorem C01_known_file_narrowed2 :
   match parse_url true (host_parse id_idna) host_parse_opaque host_display None None nar_1,
         parse_url true (host_parse id_idna) host_parse_opaque host_display None None file_base_text with
   | POk bh, POk bf =>
-      let left i := known_c01_v2 (Some bf) i = 1 /\ known_c01 (Some bf) i = 0 in
+      let left i := known_c01_v2 (Some bf) i = 1 /\ known_c01_v3 (Some bf) i = 0 in
       left fnar_1 /\ left f2_1 /\ left f2_2 /\ left f2_3 /\ left f2_4
-      /\ known_c01 (Some bf) [120] = 1 /\ known_c01 (Some bf) [47; 120] = 1
-      /\ known_c01 (Some bf) [102;105;108;101;58;47;120] = 1 /\ known_c01 (Some bf) [102;105;108;101;58;120] = 1
-      /\ known_c01 (Some bf) [47;47;104;46;120;47;67;58;47] = 1 /\ known_c01 (Some bf) fstay_1 = 1
-      /\ known_c01 (Some bf) [35; 102] = 0 /\ known_c01 (Some bf) [] = 0
-      /\ known_c01 (Some bh) f2_3 = known_c01_v2 (Some bh) f2_3 /\ known_c01 (Some bh) fnar_1 = 0
+      /\ known_c01_v3 (Some bf) [120] = 1 /\ known_c01_v3 (Some bf) [47; 120] = 1
+      /\ known_c01_v3 (Some bf) [102;105;108;101;58;47;120] = 1 /\ known_c01_v3 (Some bf) [102;105;108;101;58;120] = 1
+      /\ known_c01_v3 (Some bf) [47;47;104;46;120;47;67;58;47] = 1 /\ known_c01_v3 (Some bf) fstay_1 = 1
+      /\ known_c01_v3 (Some bf) [35; 102] = 0 /\ known_c01_v3 (Some bf) [] = 0
+      /\ known_c01_v3 (Some bh) f2_3 = known_c01_v2 (Some bh) f2_3 /\ known_c01_v3 (Some bh) fnar_1 = 0
   | _, _ => False
   end.
 Proof. exact known_file_narrowed2. Qed.
 Print Assumptions C01_known_file_narrowed2.
 
 (* non-vacuity of C01_statement_all3_model on inputs that only the present predicate admits: FILE base (the parse
-   result of file://h/tmp/x), known_c01 = 0, known_c01_v2 = 1, not in in_proved_class4, both sides succeed with the
+   result of file://h/tmp/x), known_c01_v3 = 0, known_c01_v2 = 1, not in in_proved_class4, both sides succeed with the
    same ten API strings *)
 Example C01_statement_all3_nonvacuous :
   let idna := id_idna in
@@ -2314,7 +2314,7 @@ Example C01_statement_all3_nonvacuous :
   let S sbase i := spec_basic_url_parse (spec_host_parser idna) i sbase in
   match P None file_base_text, S None file_base_text with
   | POk b, BDone sb =>
-      let ok i := known_c01 (Some b) i = 0 /\ known_c01_v2 (Some b) i = 1
+      let ok i := known_c01_v3 (Some b) i = 0 /\ known_c01_v2 (Some b) i = 1
                   /\ in_proved_class4 (Some sb) i = false /\ in_proved_class5 (Some sb) i = true
                   /\ match P (Some b) i, S (Some sb) i with
                      | POk u, BDone su => api_of_model true u = Some (spec_api_list spec_host_serializer su)
@@ -2513,6 +2513,568 @@ Example C01_eq_file_same_path_nonvacuous :
 Proof. exact class_file_same_path_nonvacuous. Qed.
 
 (* ====================================================================================== *)
+(* Fourth file-BASE arm: ONE leading separator against a file base (task c01file5)          *)
+(* ====================================================================================== *)
+From RU Require Import Proofs.C01_EqFileOne.
+
+(* what `related` says about the front of a FILE base: offsets 4 / 7 / 7, no port, the text in front of the path is
+   "file://" + the Standard's host text, and Url::host_str() - from which parser.rs rebuilds the front - is that text *)
+Theorem C01_file_base_front : forall dbg shs b sb sh,
+  related dbg shs b sb -> su_scheme sb = str_file -> su_host sb = Some sh ->
+  scheme_end b = 4 /\ username_end b = 7 /\ host_start b = 7 /\ host_end b = 7 + nlen (shs sh)
+  /\ path_start b = 7 + nlen (shs sh) /\ port b = None
+  /\ nfirstn (path_start b) (ser b) = s_file_css ++ shs sh
+  /\ match host_str b with
+     | Some (Some hs) => (s_file_css ++ hs, nlen (s_file_css ++ hs), hosti b)
+     | _ => (s_file_css, 7, HI_None)
+     end = (s_file_css ++ shs sh, 7 + nlen (shs sh), hosti b).
+Proof. exact file_base_front. Qed.
+Print Assumptions C01_file_base_front.
+
+(* the Standard's side alone, for EVERY file base without opaque path: cleaned reference c1 R1 with c1 a separator and
+   R1 not starting with one: no scheme state -> file state -> file slash state ("otherwise": host of the base; the
+   first segment of the base path is carried over when it is a normalized drive letter and R1 does not start with a
+   Windows drive letter = one_init) -> path state on R1.  The same behind "file:" (scheme state -> file state). *)
+Theorem C01_file_rel_one_spec : forall shp sb input c1 R1,
+  spec_clean input = c1 :: R1 -> is_sl c1 = true -> no_sl_head R1 = true ->
+  has_opaque_path sb = false -> list_eqb (su_scheme sb) str_file = true ->
+  spec_basic_url_parse shp input (Some sb)
+  = BDone (file_tail (fkeep sb (one_init sb R1)) (spath_f R1 (one_init sb R1) [])).
+Proof. exact spec_file_rel_one. Qed.
+Print Assumptions C01_file_rel_one_spec.
+
+Theorem C01_file_same_one_spec : forall shp sb input c1 R1,
+  spec_scheme (spec_clean input) = Some (str_file, c1 :: R1) -> is_sl c1 = true -> no_sl_head R1 = true ->
+  has_opaque_path sb = false -> list_eqb (su_scheme sb) str_file = true ->
+  spec_basic_url_parse shp input (Some sb)
+  = BDone (file_tail (fkeep sb (one_init sb R1)) (spath_f R1 (one_init sb R1) [])).
+Proof. exact spec_file_same_one. Qed.
+Print Assumptions C01_file_same_one_spec.
+
+(* the class in_class_file_rel_one: `related` base with spec_base_ok whose Standard record is a file URL without opaque
+   path; cleaned reference = ONE '/' or '\' + R1, R1 not starting with a separator; the path loop on R1 (has_host =
+   false, started on the empty list) inside fpath_ok and stable under the leading-slash collapse (fp_ok false R1 R1);
+   and (a) R1 does not start with a Windows drive letter, the base has a host and the first segment of its path is not
+   a normalized drive letter - both sides keep the host of the base - or (b) R1 starts with a Windows drive letter and
+   the host of the base is the EMPTY host - parser.rs drops the host of the base (F-C01-1), the Standard keeps it.
+   agree_good + the result pair is a full_base pair.  Only hypothesis on the host functions: the Standard's serializer
+   gives the empty string for the empty host (no host is parsed).  Beside C01_statement_all3: these references are in
+   class 1 of Known_C01.  NOT covered: R1 without drive letter against a base whose first segment is a normalized
+   drive letter (the segment is carried over; needs the path loop started on a non-empty list). *)
+Theorem C01_eq_file_rel_one : forall dbg hp hpo hd shp shs, shs SEmpty = [] -> forall input b sb,
+  usv_list input -> related dbg shs b sb -> spec_base_ok sb = true -> in_class_file_rel_one sb input = true ->
+  agree_good dbg shs (parse_url dbg hp hpo hd None (Some b) input) (spec_basic_url_parse shp input (Some sb))
+  /\ (forall su u, spec_basic_url_parse shp input (Some sb) = BDone su -> parse_url dbg hp hpo hd None (Some b) input = POk u ->
+        full_base dbg shs u su).
+Proof. exact class_file_rel_one. Qed.
+Check C01_eq_file_rel_one : forall dbg hp hpo hd shp shs, shs SEmpty = [] -> forall input b sb,
+  usv_list input -> related dbg shs b sb -> spec_base_ok sb = true ->
+  negb (has_opaque_path sb) && list_eqb (su_scheme sb) str_file
+  && match spec_clean input with
+     | c1 :: R1 =>
+         is_sl c1 && match R1 with c2 :: _ => negb (is_sl c2) | [] => true end && fp_ok false R1 R1
+         && (if starts_with_windows_drive_letter R1 then match su_host sb with Some SEmpty => true | _ => false end
+             else opt_is_some (su_host sb)
+                  && match path_segments sb with p0 :: _ => negb (is_normalized_windows_drive_letter p0) | [] => false end)
+     | [] => false
+     end = true ->
+  agree_good dbg shs (parse_url dbg hp hpo hd None (Some b) input) (spec_basic_url_parse shp input (Some sb))
+  /\ (forall su u, spec_basic_url_parse shp input (Some sb) = BDone su -> parse_url dbg hp hpo hd None (Some b) input = POk u ->
+        full_base dbg shs u su).
+Print Assumptions C01_eq_file_rel_one.
+
+(* the same arm entered from the scheme state: "file:" (any case) + the reference *)
+Theorem C01_eq_file_same_one : forall dbg hp hpo hd shp shs, shs SEmpty = [] -> forall input b sb,
+  usv_list input -> related dbg shs b sb -> spec_base_ok sb = true -> in_class_file_same_one sb input = true ->
+  agree_good dbg shs (parse_url dbg hp hpo hd None (Some b) input) (spec_basic_url_parse shp input (Some sb))
+  /\ (forall su u, spec_basic_url_parse shp input (Some sb) = BDone su -> parse_url dbg hp hpo hd None (Some b) input = POk u ->
+        full_base dbg shs u su).
+Proof. exact class_file_same_one. Qed.
+Check C01_eq_file_same_one : forall dbg hp hpo hd shp shs, shs SEmpty = [] -> forall input b sb,
+  usv_list input -> related dbg shs b sb -> spec_base_ok sb = true ->
+  match spec_scheme (spec_clean input) with
+  | Some (sch, R) => list_eqb sch str_file && file_one_ok sb R
+  | None => false
+  end = true ->
+  agree_good dbg shs (parse_url dbg hp hpo hd None (Some b) input) (spec_basic_url_parse shp input (Some sb))
+  /\ (forall su u, spec_basic_url_parse shp input (Some sb) = BDone su -> parse_url dbg hp hpo hd None (Some b) input = POk u ->
+        full_base dbg shs u su).
+Print Assumptions C01_eq_file_same_one.
+
+(* with the host model plugged in; bases in full_base; no oracle hypothesis at all *)
+Theorem C01_statement_file_rel_one_model : forall dbg idna input b sb,
+  usv_list input -> full_base dbg spec_host_serializer b sb -> in_class_file_rel_one sb input = true ->
+  agree_good dbg spec_host_serializer
+    (parse_url dbg (host_parse idna) host_parse_opaque host_display None (Some b) input)
+    (spec_basic_url_parse (spec_host_parser idna) input (Some sb))
+  /\ (forall su u, spec_basic_url_parse (spec_host_parser idna) input (Some sb) = BDone su ->
+        parse_url dbg (host_parse idna) host_parse_opaque host_display None (Some b) input = POk u ->
+        full_base dbg spec_host_serializer u su).
+Proof. exact class_file_rel_one_model. Qed.
+Print Assumptions C01_statement_file_rel_one_model.
+
+Theorem C01_statement_file_same_one_model : forall dbg idna input b sb,
+  usv_list input -> full_base dbg spec_host_serializer b sb -> in_class_file_same_one sb input = true ->
+  agree_good dbg spec_host_serializer
+    (parse_url dbg (host_parse idna) host_parse_opaque host_display None (Some b) input)
+    (spec_basic_url_parse (spec_host_parser idna) input (Some sb))
+  /\ (forall su u, spec_basic_url_parse (spec_host_parser idna) input (Some sb) = BDone su ->
+        parse_url dbg (host_parse idna) host_parse_opaque host_display None (Some b) input = POk u ->
+        full_base dbg spec_host_serializer u su).
+Proof. exact class_file_same_one_model. Qed.
+Print Assumptions C01_statement_file_same_one_model.
+
+(* non-vacuity, arm (a): against the parse result of file://h/tmp/x the references /y, \a/../b?q#f, /./C:/z, file:/y are
+   in the classes (and in class 1 of Known_C01); both sides give file://h/y, file://h/b?q#f, file://h/C:/z, file://h/y *)
+Example C01_eq_file_one_nonvacuous :
+  let idna := id_idna in
+  let P base i := parse_url true (host_parse idna) host_parse_opaque host_display None base i in
+  let S sbase i := spec_basic_url_parse (spec_host_parser idna) i sbase in
+  match P None file_base_text, S None file_base_text with
+  | POk b, BDone sb =>
+      let ok (cls : spec_url -> list N -> bool) i h :=
+        cls sb i = true /\ known_c01_v3 (Some b) i = 1
+        /\ match P (Some b) i, S (Some sb) i with
+           | POk u, BDone su => q_href u = h /\ api_of_model true u = Some (spec_api_list spec_host_serializer su)
+           | _, _ => False end in
+      ok in_class_file_rel_one [47;121] [102;105;108;101;58;47;47;104;47;121]
+      /\ ok in_class_file_rel_one [92;97;47;46;46;47;98;63;113;35;102] [102;105;108;101;58;47;47;104;47;98;63;113;35;102]
+      /\ ok in_class_file_rel_one [47;46;47;67;58;47;122] [102;105;108;101;58;47;47;104;47;67;58;47;122]
+      /\ ok in_class_file_same_one [102;105;108;101;58;47;121] [102;105;108;101;58;47;47;104;47;121]
+  | _, _ => False
+  end.
+Proof. exact class_file_one_nonvacuous. Qed.
+
+(* non-vacuity, arm (b): against the parse result of file:///tmp/x (empty host) the references /C:/y, /c|\z?q,
+   fIle:/C:/y are in the classes; both sides give file:///C:/y, file:///c:/z?q, file:///C:/y *)
+Example C01_eq_file_one_drive_nonvacuous :
+  let idna := id_idna in
+  let P base i := parse_url true (host_parse idna) host_parse_opaque host_display None base i in
+  let S sbase i := spec_basic_url_parse (spec_host_parser idna) i sbase in
+  let bt := [102;105;108;101;58;47;47;47;116;109;112;47;120] in
+  match P None bt, S None bt with
+  | POk b, BDone sb =>
+      let ok (cls : spec_url -> list N -> bool) i h :=
+        cls sb i = true /\ known_c01_v3 (Some b) i = 1
+        /\ match P (Some b) i, S (Some sb) i with
+           | POk u, BDone su => q_href u = h /\ api_of_model true u = Some (spec_api_list spec_host_serializer su)
+           | _, _ => False end in
+      ok in_class_file_rel_one [47;67;58;47;121] [102;105;108;101;58;47;47;47;67;58;47;121]
+      /\ ok in_class_file_rel_one [47;99;124;92;122;63;113] [102;105;108;101;58;47;47;47;99;58;47;122;63;113]
+      /\ ok in_class_file_same_one [102;73;108;101;58;47;67;58;47;121] [102;105;108;101;58;47;47;47;67;58;47;121]
+  | _, _ => False
+  end.
+Proof. exact class_file_one_drive_nonvacuous. Qed.
+
+(* the exclusion of arm (b) "the host of the base is the empty host" is necessary (F-C01-1, recorded, in
+   url/tests/expected_failures.txt): against the parse result of file://h/tmp/x the reference /C:/y gives file://h/C:/y
+   in the Standard and file:///C:/y in parser.rs.  Replay: Url::parse("file://h/tmp/x").unwrap().join("/C:/y") *)
+Theorem C01_file_one_exclusion_necessary :
+  let idna := id_idna in
+  let P base i := parse_url true (host_parse idna) host_parse_opaque host_display None base i in
+  let S sbase i := spec_basic_url_parse (spec_host_parser idna) i sbase in
+  let i := [47;67;58;47;121] in
+  match P None file_base_text, S None file_base_text with
+  | POk b, BDone sb =>
+      in_class_file_rel_one sb i = false /\ known_c01_v3 (Some b) i = 1
+      /\ match P (Some b) i, S (Some sb) i with
+         | POk u, BDone su => q_href u = [102;105;108;101;58;47;47;47;67;58;47;121] /\ get_href spec_host_serializer su = [102;105;108;101;58;47;47;104;47;67;58;47;121]
+         | _, _ => False end
+  | _, _ => False
+  end.
+Proof. exact class_file_one_exclusion_necessary. Qed.
+Print Assumptions C01_file_one_exclusion_necessary.
+
+(* ---- the drive-letter dispatch of the file state itself: NO leading separator, the text starts with a Windows drive
+   letter ("C|/y" scheme-less - with ':' the letter is a scheme -, "file:C:/y", "file:C|/y") ---- *)
+(* the Standard's side alone, every file base: file state, "otherwise" arm with a drive letter in front: host of the
+   base kept, path emptied, path state on the whole text *)
+Theorem C01_file_drive_spec : forall shp sb input c t,
+  spec_scheme (spec_clean input) = Some (str_file, c :: t) -> starts_with_windows_drive_letter (c :: t) = true ->
+  list_eqb (su_scheme sb) str_file = true ->
+  spec_basic_url_parse shp input (Some sb) = BDone (file_tail (fkeep sb []) (spath_f (c :: t) [] [])).
+Proof. exact spec_file_same_drive. Qed.
+Print Assumptions C01_file_drive_spec.
+
+(* classes in_class_file_rel_drive / in_class_file_same_drive: `related` base whose Standard record is a file URL
+   without opaque path and with the EMPTY host (parser.rs drops the host of the base: "file:///" + path parser; the
+   Standard keeps it); the text (scheme-less, resp. behind "file:") starts with a Windows drive letter and is inside
+   fp_ok false.  agree_good + full_base result.  Beside C01_statement_all3 (class 1 of Known_C01). *)
+Theorem C01_eq_file_rel_drive : forall dbg hp hpo hd shp shs, shs SEmpty = [] -> forall input b sb,
+  usv_list input -> related dbg shs b sb -> in_class_file_rel_drive sb input = true ->
+  agree_good dbg shs (parse_url dbg hp hpo hd None (Some b) input) (spec_basic_url_parse shp input (Some sb))
+  /\ (forall su u, spec_basic_url_parse shp input (Some sb) = BDone su -> parse_url dbg hp hpo hd None (Some b) input = POk u ->
+        full_base dbg shs u su).
+Proof. exact class_file_rel_drive. Qed.
+Check C01_eq_file_rel_drive : forall dbg hp hpo hd shp shs, shs SEmpty = [] -> forall input b sb,
+  usv_list input -> related dbg shs b sb ->
+  match spec_scheme (spec_clean input) with
+  | None => negb (has_opaque_path sb) && list_eqb (su_scheme sb) str_file
+            && match su_host sb with Some SEmpty => true | _ => false end
+            && starts_with_windows_drive_letter (spec_clean input) && fp_ok false (spec_clean input) (spec_clean input)
+  | Some _ => false
+  end = true ->
+  agree_good dbg shs (parse_url dbg hp hpo hd None (Some b) input) (spec_basic_url_parse shp input (Some sb))
+  /\ (forall su u, spec_basic_url_parse shp input (Some sb) = BDone su -> parse_url dbg hp hpo hd None (Some b) input = POk u ->
+        full_base dbg shs u su).
+Print Assumptions C01_eq_file_rel_drive.
+
+Theorem C01_eq_file_same_drive : forall dbg hp hpo hd shp shs, shs SEmpty = [] -> forall input b sb,
+  usv_list input -> related dbg shs b sb -> in_class_file_same_drive sb input = true ->
+  agree_good dbg shs (parse_url dbg hp hpo hd None (Some b) input) (spec_basic_url_parse shp input (Some sb))
+  /\ (forall su u, spec_basic_url_parse shp input (Some sb) = BDone su -> parse_url dbg hp hpo hd None (Some b) input = POk u ->
+        full_base dbg shs u su).
+Proof. exact class_file_same_drive. Qed.
+Check C01_eq_file_same_drive : forall dbg hp hpo hd shp shs, shs SEmpty = [] -> forall input b sb,
+  usv_list input -> related dbg shs b sb ->
+  match spec_scheme (spec_clean input) with
+  | Some (sch, R) => list_eqb sch str_file && file_drive_ok sb R
+  | None => false
+  end = true ->
+  agree_good dbg shs (parse_url dbg hp hpo hd None (Some b) input) (spec_basic_url_parse shp input (Some sb))
+  /\ (forall su u, spec_basic_url_parse shp input (Some sb) = BDone su -> parse_url dbg hp hpo hd None (Some b) input = POk u ->
+        full_base dbg shs u su).
+Print Assumptions C01_eq_file_same_drive.
+
+Theorem C01_statement_file_drive_model : forall dbg idna input b sb,
+  usv_list input -> full_base dbg spec_host_serializer b sb ->
+  in_class_file_rel_drive sb input || in_class_file_same_drive sb input = true ->
+  agree_good dbg spec_host_serializer
+    (parse_url dbg (host_parse idna) host_parse_opaque host_display None (Some b) input)
+    (spec_basic_url_parse (spec_host_parser idna) input (Some sb))
+  /\ (forall su u, spec_basic_url_parse (spec_host_parser idna) input (Some sb) = BDone su ->
+        parse_url dbg (host_parse idna) host_parse_opaque host_display None (Some b) input = POk u ->
+        full_base dbg spec_host_serializer u su).
+Proof.
+  intros dbg idna input b sb Hu Hb Hc. apply orb_true_iff in Hc. destruct Hc as [Hc|Hc];
+    [exact (class_file_rel_drive_model dbg idna input b sb Hu Hb Hc) | exact (class_file_same_drive_model dbg idna input b sb Hu Hb Hc)].
+Qed.
+Print Assumptions C01_statement_file_drive_model.
+
+(* non-vacuity: against the parse result of file:///tmp/x the references C|/y (scheme-less), file:C:/y, fIle:c|\z?q are
+   in the classes; both sides give file:///C:/y, file:///C:/y, file:///c:/z?q *)
+Example C01_eq_file_drive_nonvacuous :
+  let idna := id_idna in
+  let P base i := parse_url true (host_parse idna) host_parse_opaque host_display None base i in
+  let S sbase i := spec_basic_url_parse (spec_host_parser idna) i sbase in
+  let bt := [102;105;108;101;58;47;47;47;116;109;112;47;120] in
+  match P None bt, S None bt with
+  | POk b, BDone sb =>
+      let ok (cls : spec_url -> list N -> bool) i h :=
+        cls sb i = true /\ known_c01_v3 (Some b) i = 1
+        /\ match P (Some b) i, S (Some sb) i with
+           | POk u, BDone su => q_href u = h /\ api_of_model true u = Some (spec_api_list spec_host_serializer su)
+           | _, _ => False end in
+      ok in_class_file_rel_drive [67;124;47;121] [102;105;108;101;58;47;47;47;67;58;47;121]
+      /\ ok in_class_file_same_drive [102;105;108;101;58;67;58;47;121] [102;105;108;101;58;47;47;47;67;58;47;121]
+      /\ ok in_class_file_same_drive [102;73;108;101;58;99;124;92;122;63;113] [102;105;108;101;58;47;47;47;99;58;47;122;63;113]
+  | _, _ => False
+  end.
+Proof. exact class_file_drive_nonvacuous. Qed.
+
+(* the condition "empty base host" is necessary (F-C01-1 family): against the parse result of file://h/tmp/x the
+   reference file:C:/y gives file://h/C:/y in the Standard and file:///C:/y in parser.rs.
+   Replay: Url::parse("file://h/tmp/x").unwrap().join("file:C:/y") *)
+Theorem C01_file_drive_exclusion_necessary :
+  let idna := id_idna in
+  let P base i := parse_url true (host_parse idna) host_parse_opaque host_display None base i in
+  let S sbase i := spec_basic_url_parse (spec_host_parser idna) i sbase in
+  let i := [102;105;108;101;58;67;58;47;121] in
+  match P None file_base_text, S None file_base_text with
+  | POk b, BDone sb =>
+      in_class_file_same_drive sb i = false /\ known_c01_v3 (Some b) i = 1
+      /\ match P (Some b) i, S (Some sb) i with
+         | POk u, BDone su => q_href u = [102;105;108;101;58;47;47;47;67;58;47;121] /\ get_href spec_host_serializer su = [102;105;108;101;58;47;47;104;47;67;58;47;121]
+         | _, _ => False end
+  | _, _ => False
+  end.
+Proof. exact class_file_drive_exclusion_necessary. Qed.
+Print Assumptions C01_file_drive_exclusion_necessary.
+
+(* ---- ".." behind a SOLE normalized drive letter (task c01file5): neither side pops it (the Standard: shorten a
+   file URL's path; parser.rs: last_slash_can_be_removed / pop_path), so the exclusion F-C01-5/9 of fpath_ok - ".."
+   meets a drive-letter-shaped last segment - no longer applies when that segment is the only one and normalized
+   (fin_ok2).  Every class theorem stated with fpath_ok / fp_ok / file_class_ok got broader accordingly. ---- *)
+Theorem C01_fin_ok_sole_drive : forall hh P B,
+  fin_okf hh P B
+  = (negb (is_double_dot_segment B && last_is_wdl P)
+     || (is_double_dot_segment B && match P with [p0] => is_normalized_windows_drive_letter p0 | _ => false end))
+    && negb (hh && is_nil P && is_windows_drive_letter B).
+Proof. reflexivity. Qed.
+Print Assumptions C01_fin_ok_sole_drive.
+
+(* the model's end-of-segment step under the relaxed condition *)
+Theorem C01_finish_segment_file : forall pre dbg segs cur (ews : bool) hh,
+  forallb no_slash segs = true -> fin_ok2 segs cur = true ->
+  (hh && is_nil segs && is_windows_drive_letter cur) = false ->
+  finish_segment dbg STFile (nlen pre) (Bs pre segs ++ cur ++ (if ews then [47] else [])) (nlen (Bs pre segs)) ews hh
+  = POk (Bs pre (fst (fin_step_f segs cur ews)) ++ snd (fin_step_f segs cur ews), hh).
+Proof. exact finish_exact_f. Qed.
+Print Assumptions C01_finish_segment_file.
+
+(* ---- one leading separator, the drive letter of the base carried over: the first segment p0 of the base path is a
+   normalized Windows drive letter, the text R1 behind the separator does not start with a drive letter, the host of
+   the base is the EMPTY host (a non-empty host with such a path is F-C01-1 on the base itself).  The Standard hands
+   [p0] to the path state (one_init) and keeps the host; parser.rs starts from "file:///" + p0 and drops it.  The path
+   loop runs from [p0] with has_host = false (fpath_ok false R1 [p0] []; ".." on the sole p0 is allowed: fin_ok2). ---- *)
+Theorem C01_eq_file_rel_one_carry : forall dbg hp hpo hd shp shs, shs SEmpty = [] -> forall input b sb,
+  usv_list input -> related dbg shs b sb -> in_class_file_rel_one_carry sb input = true ->
+  agree_good dbg shs (parse_url dbg hp hpo hd None (Some b) input) (spec_basic_url_parse shp input (Some sb))
+  /\ (forall su u, spec_basic_url_parse shp input (Some sb) = BDone su -> parse_url dbg hp hpo hd None (Some b) input = POk u ->
+        full_base dbg shs u su).
+Proof. exact class_file_rel_one_carry. Qed.
+Check C01_eq_file_rel_one_carry : forall dbg hp hpo hd shp shs, shs SEmpty = [] -> forall input b sb,
+  usv_list input -> related dbg shs b sb ->
+  negb (has_opaque_path sb) && list_eqb (su_scheme sb) str_file
+  && match su_host sb with Some SEmpty => true | _ => false end
+  && match path_segments sb with p0 :: _ => is_normalized_windows_drive_letter p0 | [] => false end
+  && match spec_clean input with
+     | c1 :: R1 =>
+         is_sl c1 && match R1 with c2 :: _ => negb (is_sl c2) | [] => true end
+         && negb (starts_with_windows_drive_letter R1)
+         && fpath_ok false R1 (first_seg (path_segments sb)) []
+         && strip_stable (fst (spath_f R1 (first_seg (path_segments sb)) []))
+     | [] => false
+     end = true ->
+  agree_good dbg shs (parse_url dbg hp hpo hd None (Some b) input) (spec_basic_url_parse shp input (Some sb))
+  /\ (forall su u, spec_basic_url_parse shp input (Some sb) = BDone su -> parse_url dbg hp hpo hd None (Some b) input = POk u ->
+        full_base dbg shs u su).
+Print Assumptions C01_eq_file_rel_one_carry.
+
+Theorem C01_eq_file_same_one_carry : forall dbg hp hpo hd shp shs, shs SEmpty = [] -> forall input b sb,
+  usv_list input -> related dbg shs b sb -> in_class_file_same_one_carry sb input = true ->
+  agree_good dbg shs (parse_url dbg hp hpo hd None (Some b) input) (spec_basic_url_parse shp input (Some sb))
+  /\ (forall su u, spec_basic_url_parse shp input (Some sb) = BDone su -> parse_url dbg hp hpo hd None (Some b) input = POk u ->
+        full_base dbg shs u su).
+Proof. exact class_file_same_one_carry. Qed.
+Print Assumptions C01_eq_file_same_one_carry.
+
+(* non-vacuity: against the parse result of file:///C:/dir/f the references /y, \..\z?q, file:/a/./b#f are in the classes;
+   both sides give file:///C:/y, file:///C:/z?q, file:///C:/a/b#f *)
+Example C01_eq_file_one_carry_nonvacuous :
+  let idna := id_idna in
+  let P base i := parse_url true (host_parse idna) host_parse_opaque host_display None base i in
+  let S sbase i := spec_basic_url_parse (spec_host_parser idna) i sbase in
+  let bt := [102;105;108;101;58;47;47;47;67;58;47;100;105;114;47;102] in
+  match P None bt, S None bt with
+  | POk b, BDone sb =>
+      let ok (cls : spec_url -> list N -> bool) i h :=
+        cls sb i = true /\ known_c01_v3 (Some b) i = 1
+        /\ match P (Some b) i, S (Some sb) i with
+           | POk u, BDone su => q_href u = h /\ api_of_model true u = Some (spec_api_list spec_host_serializer su)
+           | _, _ => False end in
+      ok in_class_file_rel_one_carry [47;121] [102;105;108;101;58;47;47;47;67;58;47;121]
+      /\ ok in_class_file_rel_one_carry [92;46;46;92;122;63;113] [102;105;108;101;58;47;47;47;67;58;47;122;63;113]
+      /\ ok in_class_file_same_one_carry [102;105;108;101;58;47;97;47;46;47;98;35;102] [102;105;108;101;58;47;47;47;67;58;47;97;47;98;35;102]
+  | _, _ => False
+  end.
+Proof. exact class_file_one_carry_nonvacuous. Qed.
+
+(* ---- ALL file-base arms proved beside C01_statement_all3, one recogniser on the Standard's side, host model plugged
+   in, no oracle hypothesis: path-relative, one leading separator (host kept / drive letter behind the separator / drive
+   letter of the base carried over), drive-letter dispatch without a separator - each scheme-less and behind "file:".
+   Together with C01_statement_all3 (two separators, '#', '?', empty) what is NOT proved against a file base: the
+   exclusions of fpath_ok / strip_stable, a base path ending in a normalized drive letter (path-relative), a drive
+   letter in the reference or at the front of the base path against a base with a NON-EMPTY host (F-C01-1: the sides
+   differ) ---- *)
+Theorem C01_statement_file_base_arms_model : forall dbg idna input b sb,
+  usv_list input -> full_base dbg spec_host_serializer b sb -> in_file_base_arms sb input = true ->
+  agree_good dbg spec_host_serializer
+    (parse_url dbg (host_parse idna) host_parse_opaque host_display None (Some b) input)
+    (spec_basic_url_parse (spec_host_parser idna) input (Some sb))
+  /\ (forall su u, spec_basic_url_parse (spec_host_parser idna) input (Some sb) = BDone su ->
+        parse_url dbg (host_parse idna) host_parse_opaque host_display None (Some b) input = POk u ->
+        full_base dbg spec_host_serializer u su).
+Proof. exact file_base_arms_model. Qed.
+Check C01_statement_file_base_arms_model : forall dbg idna input b sb,
+  usv_list input -> full_base dbg spec_host_serializer b sb ->
+  in_class_file_rel_path sb input || in_class_file_same_path sb input
+  || in_class_file_rel_one sb input || in_class_file_same_one sb input
+  || in_class_file_rel_drive sb input || in_class_file_same_drive sb input
+  || in_class_file_rel_one_carry sb input || in_class_file_same_one_carry sb input = true ->
+  agree_good dbg spec_host_serializer
+    (parse_url dbg (host_parse idna) host_parse_opaque host_display None (Some b) input)
+    (spec_basic_url_parse (spec_host_parser idna) input (Some sb))
+  /\ (forall su u, spec_basic_url_parse (spec_host_parser idna) input (Some sb) = BDone su ->
+        parse_url dbg (host_parse idna) host_parse_opaque host_display None (Some b) input = POk u ->
+        full_base dbg spec_host_serializer u su).
+Print Assumptions C01_statement_file_base_arms_model.
+
+(* Known_C01 follows (Model/KnownC01.v kf_fin_ok relaxed with kf_sole; twin harness/src/known01.rs; the cover lemma
+   k_file_ok -> file_class_ok, hence C01_statement_all3, holds for the narrowed predicate): without a base,
+   file:C:/../x and file:/c|/../../y are outside Known_C01, in the file class, both sides give file:///C:/x and
+   file:///c:/y; file:///a/C:/../x (the drive letter is not the sole segment) stays in class 1 and the sides differ
+   there (F-C01-5: file:///a/C:/x against the Standard's file:///a/x) *)
+Theorem C01_known_sole_drive :
+  let idna := id_idna in
+  let P i := parse_url true (host_parse idna) host_parse_opaque host_display None None i in
+  let S i := spec_basic_url_parse (spec_host_parser idna) i None in
+  let ok i h := known_c01 None i = 0 /\ in_class_file i = true
+                /\ match P i, S i with
+                   | POk u, BDone su => q_href u = h /\ api_of_model true u = Some (spec_api_list spec_host_serializer su)
+                   | _, _ => False end in
+  ok [102;105;108;101;58;67;58;47;46;46;47;120] [102;105;108;101;58;47;47;47;67;58;47;120] /\ ok [102;105;108;101;58;47;99;124;47;46;46;47;46;46;47;121] [102;105;108;101;58;47;47;47;99;58;47;121]
+  /\ known_c01 None [102;105;108;101;58;47;47;47;97;47;67;58;47;46;46;47;120] = 1
+  /\ match P [102;105;108;101;58;47;47;47;97;47;67;58;47;46;46;47;120], S [102;105;108;101;58;47;47;47;97;47;67;58;47;46;46;47;120] with
+     | POk u, BDone su => q_href u = [102;105;108;101;58;47;47;47;97;47;67;58;47;120] /\ get_href spec_host_serializer su = [102;105;108;101;58;47;47;47;97;47;120]
+     | _, _ => False end.
+Proof. exact known_sole_drive. Qed.
+Print Assumptions C01_known_sole_drive.
+
+(* ====================================================================================== *)
+(* ONE leading separator against a file base folded into Known_C01 (task c01file5)          *)
+(* ====================================================================================== *)
+From RU Require Import Proofs.C01_EqFileCover3.
+
+(* the recogniser Known_C01 computes on the MODEL record of the base and the raw text is sound for the class on the
+   Standard's side *)
+Theorem C01_known_one_keep_sound : forall dbg shs b sb R,
+  related dbg shs b sb -> spec_base_ok sb = true -> list_eqb (b_scheme b) s_file = true -> k_cbb b = false ->
+  forallb (fun c => negb (is_tnl c)) R = true ->
+  k_one_keep b R = true -> k_file_ok R = true -> file_one_ok sb R = true.
+Proof. exact k_one_keep_ok. Qed.
+Print Assumptions C01_known_one_keep_sound.
+
+(* Known_C01 (known_c01) against the predicate of task c01file4 (known_c01_v3): nothing that was outside is inside now,
+   classes 2-4 are the same, without a base nothing changed, and an input that left class 1 satisfies k_arm_one =
+   file base, not cannot-be-a-base, R = the reference or what follows "file:", k_one_keep and k_file_ok on R - and is
+   then in in_class_file_rel_one or in_class_file_same_one *)
+Theorem C01_known_v3 : forall base input,
+  (known_c01_v3 base input = 0 -> known_c01 base input = 0)
+  /\ (known_c01 base input <> 0 -> known_c01 base input = known_c01_v1 base input)
+  /\ known_c01 None input = known_c01_v3 None input
+  /\ (known_c01 base input = 0 -> known_c01_v3 base input = 0 \/ k_arm_one base input = true)
+  /\ (forall dbg shs sbase, full_rel dbg shs base sbase -> k_arm_one base input = true ->
+        match sbase with Some sb => in_class_file_rel_one sb input || in_class_file_same_one sb input | None => false end = true).
+Proof.
+  intros base input. split; [exact (known_v3_zero base input)|]. split; [exact (known_class_same6 base input)|].
+  split; [exact (known_nobase_same6 input)|]. split; [exact (known_split6 base input)|].
+  intros dbg shs sbase. exact (arm_one_in_class dbg shs base sbase input).
+Qed.
+Print Assumptions C01_known_v3.
+
+Theorem C01_class6_complete : forall dbg shs input base sbase,
+  full_rel dbg shs base sbase -> known_c01 base input = 0 -> in_proved_class6 sbase input = true.
+Proof. exact all_covers6. Qed.
+Check C01_class6_complete : forall dbg shs input base sbase,
+  full_rel dbg shs base sbase -> known_c01 base input = 0 ->
+  in_proved_class5 sbase input
+  || match sbase with Some sb => in_class_file_rel_one sb input || in_class_file_same_one sb input | None => false end = true.
+Print Assumptions C01_class6_complete.
+
+(* C01_statement for Known_C01, one theorem (supersedes C01_statement_all3, which is the same statement for
+   known_c01_v3): base = None or a full_base pair, EVERY scalar-value input with known_c01 base input = 0 - now
+   including, against a FILE base, references with ONE leading separator whose host is kept ("/x", "file:/x") -
+   agree_good, and a successful pair of results is a full_base pair again.  host_hyp6 = host_hyp5 + "the Standard's
+   serializer gives the empty string for the empty host" for the new classes. *)
+Theorem C01_statement_all4 : forall dbg hp hpo hd shp shs input base sbase,
+  usv_list input -> full_rel dbg shs base sbase -> known_c01 base input = 0 ->
+  host_hyp6 hp hpo hd shp shs sbase input ->
+  agree_good dbg shs (parse_url dbg hp hpo hd None base input) (spec_basic_url_parse shp input sbase)
+  /\ (forall su u, spec_basic_url_parse shp input sbase = BDone su -> parse_url dbg hp hpo hd None base input = POk u ->
+        full_base dbg shs u su).
+Proof. exact statement_all6. Qed.
+Check C01_statement_all4 : forall dbg hp hpo hd shp shs input base sbase,
+  usv_list input -> full_rel dbg shs base sbase -> known_c01 base input = 0 ->
+  (host_hyp5 hp hpo hd shp shs sbase input
+   /\ (match sbase with Some sb => in_class_file_rel_one sb input || in_class_file_same_one sb input | None => false end = true ->
+       shs SEmpty = [])) ->
+  agree_good dbg shs (parse_url dbg hp hpo hd None base input) (spec_basic_url_parse shp input sbase)
+  /\ (forall su u, spec_basic_url_parse shp input sbase = BDone su -> parse_url dbg hp hpo hd None base input = POk u ->
+        full_base dbg shs u su).
+Print Assumptions C01_statement_all4.
+
+(* the same for the parser model with the host model plugged in against the Standard's parser with the
+   Standard's host parser: relative to IdnaOK idna ONLY *)
+Theorem C01_statement_all4_model : forall dbg idna, IdnaOK idna -> forall input base sbase,
+  usv_list input -> full_rel dbg spec_host_serializer base sbase -> known_c01 base input = 0 ->
+  agree_good dbg spec_host_serializer
+    (parse_url dbg (host_parse idna) host_parse_opaque host_display None base input)
+    (spec_basic_url_parse (spec_host_parser idna) input sbase)
+  /\ (forall su u, spec_basic_url_parse (spec_host_parser idna) input sbase = BDone su ->
+        parse_url dbg (host_parse idna) host_parse_opaque host_display None base input = POk u ->
+        full_base dbg spec_host_serializer u su).
+Proof. exact statement_all6_model. Qed.
+Check C01_statement_all4_model : forall dbg idna, IdnaOK idna -> forall input base sbase,
+  usv_list input ->
+  match base, sbase with
+  | None, None => True
+  | Some b, Some sb => (related dbg spec_host_serializer b sb /\ spec_base_ok sb = true) /\ base_shape_ok sb = true
+  | _, _ => False
+  end ->
+  known_c01 base input = 0 ->
+  let m := parse_url dbg (host_parse idna) host_parse_opaque host_display None base input in
+  match spec_basic_url_parse (spec_host_parser idna) input sbase with
+  | BDone su => spec_base_ok su = true
+                /\ ((m = PErr Overflow /\ U32_MAX_P < nlen (get_href spec_host_serializer su))
+                    \/ exists u, m = POk u /\ related dbg spec_host_serializer u su)
+  | BFailure _ => exists e, m = PErr e
+  | BOutOfFuel => False
+  end
+  /\ (forall su u, spec_basic_url_parse (spec_host_parser idna) input sbase = BDone su -> m = POk u ->
+        (related dbg spec_host_serializer u su /\ spec_base_ok su = true) /\ base_shape_ok su = true).
+Print Assumptions C01_statement_all4_model.
+
+Theorem C01_statement_all4_model_utf8 : forall dbg idna, IdnaOK idna -> forall input base sbase,
+  usv_list input -> full_rel dbg spec_host_serializer base sbase -> known_c01 base input = 0 ->
+  agree_good dbg spec_host_serializer
+    (parse_url dbg (host_parse idna) host_parse_opaque host_display (Some utf8_encode) base input)
+    (spec_basic_url_parse (spec_host_parser idna) input sbase).
+Proof. exact statement_all6_model_utf8. Qed.
+Print Assumptions C01_statement_all4_model_utf8.
+
+Theorem C01_statement_instance4 : forall dbg idna, IdnaOK idna -> forall input base sbase,
+  usv_list input -> full_rel dbg spec_host_serializer base sbase -> known_c01 base input = 0 ->
+  statement_shape dbg spec_host_serializer
+    (parse_url dbg (host_parse idna) host_parse_opaque host_display None base input)
+    (spec_basic_url_parse (spec_host_parser idna) input sbase).
+Proof. exact statement_instance6. Qed.
+Check C01_statement_instance4 : forall dbg idna, IdnaOK idna -> forall input base sbase,
+  usv_list input -> full_rel dbg spec_host_serializer base sbase -> known_c01 base input = 0 ->
+  match parse_url dbg (host_parse idna) host_parse_opaque host_display None base input,
+        spec_basic_url_parse (spec_host_parser idna) input sbase with
+  | POk u, BDone su => api_total dbg u = spec_api_list spec_host_serializer su
+  | PErr Overflow, BDone su => U32_MAX_P < nlen (get_href spec_host_serializer su)
+  | PErr _, BFailure _ => True
+  | _, _ => False
+  end.
+Print Assumptions C01_statement_instance4.
+
+(* what left class 1 and what stays (vm_compute): against the parse result of file://h/tmp/x  /y, \a/../b?q#f, /./C:/z,
+   file:/y  left (known_c01_v3 = 1, known_c01 = 0);  x,  /C:/y,  file:C:/y  stay; against the parse result of
+   file:///C:/dir/f  the reference /y stays (proved beside: C01_eq_file_rel_one_carry) *)
+Theorem C01_known_file_narrowed3 :
+  match parse_url true (host_parse id_idna) host_parse_opaque host_display None None file_base_text,
+        parse_url true (host_parse id_idna) host_parse_opaque host_display None None [102;105;108;101;58;47;47;47;67;58;47;100;105;114;47;102] with
+  | POk bf, POk bc =>
+      let left i := known_c01_v3 (Some bf) i = 1 /\ known_c01 (Some bf) i = 0 in
+      left f3_1 /\ left f3_2 /\ left f3_3 /\ left f3_4
+      /\ known_c01 (Some bf) [120] = 1 /\ known_c01 (Some bf) [47;67;58;47;121] = 1
+      /\ known_c01 (Some bf) [102;105;108;101;58;67;58;47;121] = 1
+      /\ known_c01 (Some bc) f3_1 = 1
+      /\ known_c01 (Some bf) f2_3 = 0 /\ known_c01 (Some bf) [35; 102] = 0 /\ known_c01 (Some bf) [] = 0
+  | _, _ => False
+  end.
+Proof. exact known_file_narrowed3. Qed.
+Print Assumptions C01_known_file_narrowed3.
+
+Example C01_statement_all4_nonvacuous :
+  let idna := id_idna in
+  let P base i := parse_url true (host_parse idna) host_parse_opaque host_display None base i in
+  let S sbase i := spec_basic_url_parse (spec_host_parser idna) i sbase in
+  match P None file_base_text, S None file_base_text with
+  | POk b, BDone sb =>
+      let ok i := known_c01 (Some b) i = 0 /\ known_c01_v3 (Some b) i = 1
+                  /\ in_proved_class5 (Some sb) i = false /\ in_proved_class6 (Some sb) i = true
+                  /\ match P (Some b) i, S (Some sb) i with
+                     | POk u, BDone su => api_of_model true u = Some (spec_api_list spec_host_serializer su)
+                     | _, _ => False end in
+      ok f3_1 /\ ok f3_2 /\ ok f3_3 /\ ok f3_4
+  | _, _ => False
+  end.
+Proof. exact statement_all6_nonvacuous. Qed.
+
+(* ====================================================================================== *)
 (* appended block (task c09last): the *_model theorems for the REAL idna oracle            *)
 (* ====================================================================================== *)
 (* The *_model theorems above are stated relative to IdnaOK idna, which is FALSE of the real idna crate (finding F-C10-1:
@@ -2621,3 +3183,16 @@ Example C01_statement_all2_real_nonvacuous :
      | _, _ => False end.
 Proof. split; [exact (IdnaOK2_out idna_long idna_long_ok2)|]. vm_compute. repeat split; reflexivity. Qed.
 
+
+(* for Known_C01 as narrowed by task c01file5, relative to the clause of the oracle hypothesis that holds of the real
+   crate (IdnaOut; IdnaOK2 of C09 implies it) *)
+Theorem C01_statement_all4_real : forall dbg idna, IdnaOut idna -> forall input base sbase,
+  usv_list input -> full_rel dbg spec_host_serializer base sbase -> known_c01 base input = 0 ->
+  agree_good dbg spec_host_serializer
+    (parse_url dbg (host_parse idna) host_parse_opaque host_display None base input)
+    (spec_basic_url_parse (spec_host_parser idna) input sbase)
+  /\ (forall su u, spec_basic_url_parse (spec_host_parser idna) input sbase = BDone su ->
+        parse_url dbg (host_parse idna) host_parse_opaque host_display None base input = POk u ->
+        full_base dbg spec_host_serializer u su).
+Proof. exact statement_all6_out. Qed.
+Print Assumptions C01_statement_all4_real.
